@@ -27,6 +27,7 @@ Ev0 == [name |-> "", ch |-> "", prio |-> 0, fseq |-> 0, root |-> 0, origin |-> 0
         results |-> <<>>, nraise |-> 0, gens |-> 0, ngen |-> 0,
         nsucc |-> 0, nfail |-> 0, nexc |-> 0, ncompl |-> 0, ndone |-> 0,
         disproot |-> 0, skipped |-> FALSE, proj |-> <<>>,
+        multi |-> FALSE,          \* fired on several channels: delivered once per channel, outside C01's single-channel reading
         mig |-> <<>>]             \* ids of the register() operations that moved the event to another queue
 
 S0(G) == [par    |-> [c \in 1..Len(G.chan) |-> c],
@@ -183,9 +184,9 @@ InvFails(G, S, ln) ==
   IF ~Known(S, e) THEN {<<"M", "unknown_event">>}
   ELSE IF S.ev[e].st # 2 THEN {<<"C01", "outside_dispatch">>}
   ELSE
-  (IF h \in S.ev[e].ran THEN {<<"C01", "twice">>} ELSE {})
+  (IF h \in S.ev[e].ran /\ ~S.ev[e].multi THEN {<<"C01", "twice">>} ELSE {})
   \cup
-  (IF h \notin S.ev[e].expect /\ h \notin S.ev[e].slack
+  (IF h \notin S.ev[e].expect /\ h \notin S.ev[e].slack /\ ~S.ev[e].multi
    THEN (IF Root(S, G.H[h].comp) # S.ev[e].disproot THEN {<<"C07", "after_detach">>} ELSE {<<"C01", "extra">>})
    ELSE {})
   \cup
@@ -199,6 +200,7 @@ DendFails(G, S, ln) ==
   ELSE LET must == { h \in S.ev[e].expect \ S.ev[e].slack :
                       S.ev[e].stopPrio = NoPrio \/ G.H[h].prio > S.ev[e].stopPrio }
        IN (IF ln.f = 1 /\ S.ev[e].stopPrio = NoPrio THEN {}       \* stopped by a handler outside the program
+           ELSE IF S.ev[e].multi THEN {}
            ELSE IF must \ S.ev[e].ran # {} THEN {<<"C01", "missing">>} ELSE {})
 
 (* value projection: the items logged so far for e are in S.ev[e].proj *)
@@ -293,7 +295,7 @@ EvUpd(S, e, f(_)) == IF Known(S, e) THEN [S EXCEPT !.ev[e] = f(@)] ELSE S
 ApplyFire(G, S, ln) ==
   LET rec == [Ev0 EXCEPT !.name = ln.n, !.ch = ln.ch, !.prio = ln.p, !.fseq = S.nf + 1, !.root = ln.c,
                          !.origin = ln.o, !.flags = ln.f, !.ref = ln.x, !.kind = ln.y,
-                         !.ca = ln.v, !.cb = ln.d % 100]
+                         !.ca = ln.v, !.cb = ln.d % 100, !.multi = ln.d >= 100]
       S1 == [S EXCEPT !.ev = Append(@, rec), !.nf = @ + 1,
                       !.q[ln.c] = Append(@, Len(S.ev) + 1)]
       x == ln.x
